@@ -14,16 +14,26 @@
   where allowed / NIL), zero padding of numerals and the tolerated deviations.
 
   What is proved (`fidelity_partial`): the statement for every response the relation covers:
-      FETCH responses whose attributes are BODYSTRUCTURE / BODY (text, message/rfc822, basic and
-      multipart parts, body fields, parameters, encoding, disposition, language, location, extension
-      data, nested to the depth budget), ENVELOPE (all ten fields; address lists of any length),
-      INTERNALDATE, FLAGS, MODSEQ, RFC822, RFC822.HEADER, RFC822.SIZE, RFC822.TEXT, UID,
-      X-GM-LABELS, X-GM-MSGID, in any number and order, wrapped as `* n FETCH (...) *SP CRLF`.
-  What is missing from the full statement: the remaining response kinds (status responses and
-  their codes, mailbox data, capability, ACL, quota, ID, metadata, VANISHED ...) and the
-  attribute BODY[section].  For those kinds the property is decided by the
-  correspondence run only (type-directed values x independent printer x both implementations), as
-  recorded in the evidence file.
+      * FETCH responses whose attributes are BODYSTRUCTURE / BODY (text, message/rfc822, basic and
+        multipart parts, body fields, parameters, encoding, disposition, language, location, extension
+        data, nested to the depth budget), ENVELOPE (all ten fields; address lists of any length),
+        INTERNALDATE, FLAGS, MODSEQ, RFC822, RFC822.HEADER, RFC822.SIZE, RFC822.TEXT, UID,
+        X-GM-LABELS, X-GM-MSGID, in any number and order;
+      * mailbox data: EXISTS, RECENT, FLAGS, SEARCH and SORT (with the tolerated trailing space),
+        LIST and LSUB (name attributes classified by the complete flag, NIL / quoted delimiter, mailbox
+        in every astring form with INBOX folded), STATUS (all six items, empty list allowed);
+      * EXPUNGE; CAPABILITY (classification by the complete atom, IMAP4rev1 required);
+      * status responses, untagged (`* OK ...`), tagged completions and continuation requests
+        (`+ text`, `+text`), with the response codes ALERT, PARSE, READ-ONLY, READ-WRITE, TRYCREATE,
+        UIDNOTSTICKY, UIDVALIDITY, UIDNEXT, UNSEEN, PERMANENTFLAGS, HIGHESTMODSEQ, METADATA
+        LONGENTRIES / MAXSIZE / TOOMANY / NOPRIVATE, and the forms `[code] text`, `[code]`, `text`,
+        nothing;
+      all untagged ones wrapped as `* payload *SP CRLF` where trailing spaces are tolerated.
+  What is missing from the full statement: the remaining response kinds (ACL / LISTRIGHTS / MYRIGHTS,
+  QUOTA / QUOTAROOT, ID, METADATA, ENABLED, VANISHED, Gmail mailbox data), the response codes
+  BADCHARSET, CAPABILITY-inside-a-status-line, APPENDUID, COPYUID, and the attribute BODY[section].
+  For those the property is decided by the correspondence run only (type-directed values x
+  independent printer x both implementations), as recorded in the evidence file.
 -/
 import ImapVerif.Proofs.RTResp
 
